@@ -274,7 +274,7 @@ func TwoTargetsEach(want func(i int) bool, f func(i int, fs FileSet)) int {
 		for _, t1First := range []bool{true, false} {
 			for _, x := range []string{"q", "e", "r1"} {
 				for _, y := range []string{"r1", "e", "q"} {
-					for _, third := range []string{"none", "extend-t4-r1", "extend-t1-q"} {
+					for _, third := range []string{"none", "extend-t4-r1", "extend-t1-q", "extend-t1-e", "extend-t4-e"} {
 						if want == nil || want(n) {
 							fs := FileSet{Tag: fmt.Sprintf("two-targets: base in two files=%v | b.fga: extend t1 with %s, extend t4 with %s (t1 first=%v) | d.fga: %s", split, x, y, t1First, third)}
 							if split {
@@ -295,6 +295,11 @@ func TwoTargetsEach(want func(i int) bool, f func(i int, fs FileSet)) int {
 								fs.Files = append(fs.Files, FileSpec{Name: fileNames[3], M: &ref.Model{Module: moduleNames[3], Types: []ref.TypeDef{{Name: "t4", Extend: true, Rels: []ref.Relation{rel("r1")}}}}})
 							case "extend-t1-q":
 								fs.Files = append(fs.Files, FileSpec{Name: fileNames[3], M: &ref.Model{Module: moduleNames[3], Types: []ref.TypeDef{{Name: "t1", Extend: true, Rels: []ref.Relation{rel("q")}}}}})
+							case "extend-t1-e":
+								// the name the two-target file may add to its OTHER type
+								fs.Files = append(fs.Files, FileSpec{Name: fileNames[3], M: &ref.Model{Module: moduleNames[3], Types: []ref.TypeDef{{Name: "t1", Extend: true, Rels: []ref.Relation{rel("e")}}}}})
+							case "extend-t4-e":
+								fs.Files = append(fs.Files, FileSpec{Name: fileNames[3], M: &ref.Model{Module: moduleNames[3], Types: []ref.TypeDef{{Name: "t4", Extend: true, Rels: []ref.Relation{rel("e")}}}}})
 							}
 							f(n, fs)
 						}
